@@ -12,3 +12,5 @@ import DeepModel.Props.C01
 #print axioms C01.c01_callbacks_self_heal
 #print axioms C01.c01_evaluate_expression_total
 #print axioms C01.c01_resolution_contained
+#print axioms C01.c01_no_host_writes
+#print axioms C01.c01_host_touch_in_table
